@@ -1,5 +1,5 @@
 (* C17 -- lemmas about the CFG-construction model (Model/AirLower.v). *)
-From Aelys Require Import Base.Tactics Model.AirLower.
+From Aelys Require Import Base.Tactics Extracted.LowerFlags Model.AirLower.
 Local Open Scope N_scope.
 
 (* ---- witnesses (each reproduced on the real code, see corpus/C17) *)
@@ -185,6 +185,11 @@ Lemma push_step a b s : U s -> OutOK s -> Step s (push_loop a b s).
 Proof. intros; apply same_step; auto. Qed.
 Lemma pop_step s : U s -> OutOK s -> Step s (pop_loop s).
 Proof. intros; apply same_step; auto. Qed.
+
+Lemma scope_block_step n s : U s -> OutOK s -> Step s (scope_block n s).
+Proof. intros. unfold scope_block. destruct BLOCK_SCOPES_NAMES; [apply same_step; auto|apply Step_refl; assumption]. Qed.
+Lemma scope_loop_step n s : U s -> OutOK s -> Step s (scope_loop n s).
+Proof. intros. unfold scope_loop. destruct LOOP_SCOPES_NAMES; [apply same_step; auto|apply Step_refl; assumption]. Qed.
 
 (* fixup / noop consume an available id *)
 
@@ -507,7 +512,8 @@ Proof.
   plain C9 (seal_step (TGoto hd) _).
   pose proof (chain_stepX _ inc _ _ _ C10 V3 ltac:(notin) (fixup_step inc _)) as C11.
   pose proof (chain_stepX _ ex _ _ _ C11 V4 ltac:(notin) (noop_step ex _)) as C12.
-  exact C12.
+  plain C12 (scope_loop_step (length (names s)) _).
+  exact C13.
 Qed.
 
 Lemma case_SForEach n it b : Pe it -> Ps b -> Ps (SForEach n it b).
@@ -538,7 +544,8 @@ Proof.
   plain C9 (seal_step (TGoto hd) _).
   pose proof (chain_stepX _ inc _ _ _ C10 V3 ltac:(notin) (fixup_step inc _)) as C11.
   pose proof (chain_stepX _ ex _ _ _ C11 V4 ltac:(notin) (noop_step ex _)) as C12.
-  exact C12.
+  plain C12 (scope_loop_step (length (names s)) _).
+  exact C13.
 Qed.
 
 Lemma case_EShort a l r : Pe l -> Pe r -> Pe (EShort a l r).
@@ -615,7 +622,8 @@ Proof.
   - intros x e IH s Hu Ho. cbn [lower_stmt].
     eapply Step_then; [apply add_name_step; assumption|]. intros.
     eapply Step_then; [apply IH; assumption|]. intros; apply emit_step; assumption.
-  - intros b IH s Hu Ho. apply IH; assumption.
+  - intros b IH s Hu Ho. cbn [lower_stmt].
+    eapply Step_then; [apply IH; assumption|]. intros; apply scope_block_step; assumption.
   - intros c IHc t IHt. apply case_SIf; assumption.
   - intros c IHc t IHt e IHe. apply case_SIfElse; assumption.
   - intros c IHc b IHb. apply case_SWhile; assumption.
